@@ -332,7 +332,7 @@ func runNet(r *vk.Run) map[string]interface{} {
 		c := c
 		cfgInputs := 0
 		outcomes := map[string]int{}
-		stt := r.ExploreDeviations(c.bound, func(ch *vk.Chooser) {
+		body := func(ch *vk.Chooser) {
 			s := newNet(c, f)
 			defer s.close()
 			var trace []string
@@ -375,7 +375,17 @@ func runNet(r *vk.Run) map[string]interface{} {
 				r.Sample(map[string]interface{}{"search": "net/" + c.name, "deviations": trace, "final": fk})
 			}
 			mu.Unlock()
-		})
+		}
+		var stt vk.DevStats
+		if r.ReplayPath != "" {
+			if choices, ok := r.ReplayChoices("net/" + c.name); ok {
+				for i := 0; i < 5; i++ {
+					vk.RunChoices(choices, body)
+				}
+			}
+			continue
+		}
+		stt = r.ExploreDeviations(c.bound, body)
 		if stt.Capped {
 			r.Capped(fmt.Sprintf("net/%s: deadline; executions so far %d (bound %d not completed)", c.name, stt.Executions, c.bound))
 		}
